@@ -46,6 +46,7 @@ def units(tier, seed):
         {"sid": "iso", "family": "iso", "size": 8 if q else 10, "donor": ("iso", 7), "max_slices": 30 if q else 100},
         {"sid": "table", "family": "table", "size": 12 if q else 18, "donor": ("table", 12), "max_slices": 30 if q else 100},
         {"sid": "basic", "family": "inline_s", "size": 5 if q else 6, "donor": ("inline_s", 4), "max_slices": 30 if q else 100},
+        {"sid": "basic", "family": "long", "size": 8 if q else 10, "donor": ("long", 5), "max_slices": 20 if q else 60},
         {"sid": "grid", "family": "table", "size": 12 if q else 16, "donor": ("table", 10), "max_slices": 20 if q else 60},
     ]
     extra = [
